@@ -15,7 +15,7 @@ META = {
                   'compile-time-constant clause checked by _Static_assert samples compiled with gcc, not proved.',
     'design_ref': '§6 C16',
 }
-REQUIRED = ['Librfn.C16.bitcnt_is_popcount', 'Librfn.C16.clz_char', 'Librfn.C16.ctz_char', 'Librfn.C16.ilog2_char',
+REQUIRED = ['Librfn.C16.regdump_field_extraction', 'Librfn.C16.bitcnt_is_popcount', 'Librfn.C16.clz_char', 'Librfn.C16.ctz_char', 'Librfn.C16.ilog2_char',
             'Librfn.C16.const_pop_is_popcount', 'Librfn.C16.const_lssb_char']
 
 
@@ -123,6 +123,19 @@ def run(ctx):
         if g != want and not ctx.violations:
             ctx.violation({'obligation': 'const_lssb evaluated in its own expression type (sign test, halving)', 'call': f'const_lssb({x:#x})', 'expected': want + '  (is-negative, value/2)',
                            'observed': g}, key=f'sign:{x}')
+    # regdump.c, the in-library user of ctz: the field value the real fregdump() prints for contiguous masks
+    rd = []
+    for n in list(range(1, 33)):
+        for s_ in sorted({0, 1, 7, 8, 15, 16, 24, 31, 32 - n, rng.below(33 - n)}):
+            if n + s_ <= 32:
+                rd.append((rng.choice([0xffffffff, 0xc041, rng.next() & 0xffffffff, rng.next() & 0xffffffff]), n, s_))
+    rc, out, err = vlib.sh([exe, 'lines'], input=''.join(f'regdump {reg} {(((1 << n) - 1) << s_) & 0xffffffff}\n' for reg, n, s_ in rd), timeout=60)
+    for (reg, n, s_), g in zip(rd, out.strip('\n').split('\n') + ['missing'] * len(rd)):
+        want = '%x' % ((reg >> s_) & ((1 << n) - 1))
+        ctx.count(('regdump', reg, n, s_))
+        if g != want and not ctx.violations:
+            ctx.violation({'obligation': 'regdump field extraction (reg & mask) >> ctz(mask) on the real fregdump()', 'call': f'fregdump(reg={reg:#x}, mask={(((1 << n) - 1) << s_) & 0xffffffff:#x})',
+                           'expected': want, 'observed': g}, key=f'regdump:{reg}:{n}:{s_}')
     nsa, sfails = static_asserts(ctx, rng)
     ctx.cov['static_asserts'] = nsa
     for op, c in sfails[:1]:
